@@ -52,7 +52,7 @@ TOLERANCES = {'plain and whitened without sigma_k': TOL_PLAIN, 'whitened compare
               'rescale proportionality': 1e-9, 'rescale common scale (relative)': TOL_RESCALE}
 BOUNDS = {
     'quick': {'n_cond': [4], 'masks': 'all with >= 3 entries left (42)', 'fills': 2,
-              'within_stack_third_mask': ['= first', '= second', 'none'],
+              'within_stack_third_mask': ['= first', '= second', 'none', 'one mask with the average count'],
               'coverings': 'ordered pairs (63) + unordered triples of distinct subsets (149)',
               'mean': '2 RDMs: all 64x64 masks; 3 RDMs: masks of <= 2 entries (22^3)'},
     'thorough': {'n_cond': [4, 5], 'masks': 'n=4: 42; n=5: <= 3 missing of 10 (176)', 'fills': 3,
@@ -70,6 +70,10 @@ POOL_F = ['euclid', 'cosine', 'corr', 'cosine_cov', 'corr_cov', 'spearman', 'rho
 NC_METHODS = ['cosine', 'corr', 'cosine_cov', 'corr_cov', 'spearman', 'rho-a', 'kendall', 'tau-a']
 FIT_METHODS = ['cosine', 'corr', 'cosine_cov', 'corr_cov']
 WKINDS = ['none', 'name', 'rdm1d', 'rdmcol', 'rdmfull', 'entry']
+# signature class of a weight form: (n_rdm,1) column and the tiled dissimilarities-shaped array are
+# the same documented form (broadcast), the 1-D vector is what a descriptor holds
+WCLASS = {'none': 'none', 'name': 'descriptor-name', 'rdm1d': 'per-rdm-1d-array',
+          'rdmcol': 'per-rdm-array', 'rdmfull': 'per-rdm-array', 'entry': 'per-entry-array'}
 RESCALE = ['evidence', 'setsize', 'simple']
 SUBSETS4 = [list(s) for k in (2, 3, 4) for s in itertools.combinations(range(4), k)]
 
@@ -178,6 +182,8 @@ def shards(tier, seed):
             out.append({'kind': 'pool', 'which': 'fitter', 'n_cond': n, 'method': m})
         for m in NC_METHODS:
             out.append({'kind': 'nc', 'n_cond': n, 'method': m})
+            if n == 4:
+                out.append({'kind': 'cvnc', 'n_cond': n, 'method': m})
         for m in FIT_METHODS:
             for s in ('none', 'vector', 'matrix'):
                 out.append({'kind': 'fit', 'n_cond': n, 'method': m, 'sigma': s})
@@ -298,6 +304,14 @@ def run_shard(shard, ctx):
                             c['which'] = shard['which']
                             c['sigma'] = s
                         run_case(c, ctx)
+    elif kind == 'cvnc':
+        n = shard['n_cond']
+        for code in range(n ** n):
+            idx = _decode_idx(code, n)
+            if len(set(idx)) < n:
+                for f in range(fills):
+                    run_case({'kind': 'cvnc', 'n_cond': n, 'method': shard['method'], 'idx': idx,
+                              'vals': 'pos%d' % f}, ctx)
     elif kind == 'fit':
         n = shard['n_cond']
         for mask in all_masks(n, tier):
@@ -448,7 +462,7 @@ def _mask_class(*masks):
 # ----------------------------------------------------------------------------- cases
 def run_case(case, ctx):
     kind = case['kind']
-    if kind in ('common', 'differ', 'within', 'boot', 'bootdiffer', 'pool', 'nc', 'fit', 'fitboot',
+    if kind in ('common', 'differ', 'within', 'boot', 'bootdiffer', 'pool', 'nc', 'cvnc', 'fit', 'fitboot',
                 'fitdiffer', 'mean', 'partials', 'partials_common'):
         return globals()['_case_' + kind](case, ctx)
     # a shard descriptor handed to --replay (escaped exception): run the whole shard
@@ -565,7 +579,7 @@ def _case_bootdiffer(case, ctx):
     kw = {'sigma_k': _sigma(skind, n, ctx.seed)} if method in WHITE else {}
     ctx.case(case)
     cls = 'equal-count' if len(k1) == len(k2) else 'different-count'
-    _must_raise(ctx, case, 'compare|masks=between-stacks(bootstrap),%s' % cls,
+    _must_raise(ctx, case, 'compare|masks=between-stacks,%s' % cls,
                 lambda: compare(ms, ds, method=method, **kw),
                 'compare(method=%s) of a model resampled with %s and data resampled with %s'
                 % (method, case['idx2'], case['idx']))
@@ -660,6 +674,50 @@ def _case_nc(case, ctx):
             if not close(g, w, tol):
                 ctx.fail(tag + '|%s-value-mismatch' % name, case,
                          '%s ceiling %.12g, reference on entry-deleted vectors %.12g (mask %s)' % (name, g, w, mask))
+        ctx.outcome(round(float(want[0]), 8))
+
+
+def _case_cvnc(case, ctx):
+    """cross-validation noise ceiling on a pattern-bootstrap sample: pooled RDMs are resampled with
+    the index vector, the test RDM carries the same bootstrap-induced missing entries"""
+    from rsatoolbox.rdm import RDMs
+    from rsatoolbox.inference.noise_ceiling import cv_noise_ceiling
+    n, method, idx = case['n_cond'], case['method'], case['idx']
+    L = combi.n_pairs(n)
+    X = _vals(ctx, case['vals'], (n, 65), 3, L)
+    sample, keep = R.bootstrap_mask(idx)
+    tag = 'cv_noise_ceiling|method=%s,bootstrap' % method
+    if len(keep) < 3:
+        ctx.exclude('fewer than 3 non-missing entries')
+        ctx.case(case, nontrivial=False)
+        return
+    p_train = R.pool_inference(method, X[:2].tolist())
+    p_all = R.pool_inference(method, X.tolist())
+    test = [R.bootstrap_vector(X[2], n, idx)[k] for k in keep]
+    want = []
+    for p in (p_train, p_all):
+        pb = [R.bootstrap_vector(p, n, idx)[k] for k in keep] if p is not None else None
+        if pb is None or R.nearly_degenerate(method, pb) or R.nearly_degenerate(method, test):
+            want = None
+            break
+        want.append(M.similarity(method, pb, test, None, (len(sample), keep)))
+    if want is None or any(w is None for w in want):
+        ctx.exclude('noise ceiling undefined on the deleted vectors (zero norm / constant)')
+        ctx.case(case, nontrivial=False)
+        return
+    with ctx.guard(tag, case):
+        rdms = RDMs(X.copy())
+        train = rdms.subset('index', [0, 1])
+        test_rdms = rdms.subset('index', [2]).subsample_pattern('index', np.array(idx))
+        got = cv_noise_ceiling(rdms, [(train, np.array(idx))], [(test_rdms, np.array(idx))], method=method,
+                               pattern_descriptor='index')
+        ctx.case(case)
+        for name, g, w in (('lower', got[0], want[0]), ('upper', got[1], want[1])):
+            ctx.dev(tag, reldev(g, w))
+            if not close(g, w, TOL_PLAIN):
+                ctx.fail(tag + '|%s-value-mismatch' % name, case,
+                         '%s ceiling %.12g, reference on entry-deleted vectors %.12g (index vector %s)'
+                         % (name, g, w, idx))
         ctx.outcome(round(float(want[0]), 8))
 
 
@@ -816,7 +874,7 @@ def _case_mean(case, ctx):
         if len(m):
             D[r, list(m)] = np.nan
     warg, wref, desc = _weights(ctx, case['weights'], len(masks), L, (n, len(masks)))
-    tag = 'RDMs.mean|weights=%s' % case['weights']
+    tag = 'RDMs.mean|weights=%s' % WCLASS[case['weights']]
     with ctx.guard(tag, case):
         ctx.case(case, nontrivial=bool(np.isnan(D).any()))
         got = RDMs(D.copy(), rdm_descriptors=desc).mean(warg).dissimilarities
@@ -892,7 +950,7 @@ def _case_partials(case, ctx):
         warg, wref, _ = _weights(ctx, case['weights'], n_rdm, L, (4, n_rdm, 7))
         if case['weights'] == 'name':
             wref = [float(v) for v in fp.rdm_descriptors['w']]
-        tag = 'RDMs.mean|weights=%s' % case['weights']
+        tag = 'RDMs.mean|weights=%s' % WCLASS[case['weights']]
         with ctx.guard(tag, case):
             ctx.case(case)
             got = fp.mean(warg).dissimilarities
@@ -905,7 +963,7 @@ def _case_partials(case, ctx):
         method, skind = case['method'], case['sigma']
         kwc = {'sigma_k': _sigma(skind, 4, ctx.seed)} if method in WHITE else {}
         cls = 'equal-count' if len({len(m) for m in rowmasks}) == 1 else 'different-count'
-        _must_raise(ctx, case, 'compare|masks=within-stack(from_partials),%s' % cls,
+        _must_raise(ctx, case, 'compare|masks=within-stack,%s' % cls,
                     lambda: compare(fp, fp, method=method, **kwc),
                     'compare(method=%s) of the from_partials stack of %s with itself' % (method, case['parts']))
     elif op == 'rescale':
